@@ -12,12 +12,21 @@ Three answers per (schema, configuration):
   model : `wellformed` request to the Lean driver: the problems the model of the
           generator (literal sites, scopes, parameter names, includes) predicts,
           each with the configurations that reject it.
+Streams: name-clash, path-clash, adversarial-names (the model - which follows
+the decision sites extracted from names_generator.hpp on this run - says which
+class names the generator chooses for three base schemas that take every naming
+decision both ways; later / earlier groups, messages, types, enums, sets,
+composites and composite elements are then named literally like those names,
+their `_entry` forms and the next `_N` counters), one-identifier, literal-boundary,
+literal-probe.
+
 impl != spec  -> report_failure (suppressed only by a known finding whose class
                  the model predicted AND the compiler's first error confirms);
 model says ill-formed, impl compiles -> report_unproved (model != impl = spec);
 sbeppc accepts, model's acceptance conditions fail -> report_unproved.
 """
 import concurrent.futures as cf
+import hashlib
 import json
 import os
 import random
@@ -41,9 +50,11 @@ THEOREMS = [
     'Sbepp.Properties.C07.scope_conflict_free_full_false',
     'Sbepp.Properties.C07.scope_conflict_free_partial',
     'Sbepp.Properties.C07.fixed_scope_classes',
+    'Sbepp.Properties.C07.names_generator_shape',
     'Sbepp.Properties.C07.mangled_fresh',
     'Sbepp.Properties.C07.detail_types_distinct',
     'Sbepp.Properties.C07.detail_messages_distinct',
+    'Sbepp.Properties.C07.no_duplicate_declarations',
     'Sbepp.Properties.C07.class_name_not_member',
     'Sbepp.Properties.C07.keywords_rejected',
     'Sbepp.Properties.C07.public_paths_resolve',
@@ -82,6 +93,7 @@ ERROR_CLASSES = [
                             r'must use .class. tag to refer to type|'
                             r'redeclared as different kind of entity|'
                             r'does not name a type|no type named|must be a type|type/value mismatch'),
+    ('redefinition', r'redefinition of|redeclaration of|redeclared|conflicting declaration'),
     ('no-matching-function', r'no matching function for call'),
     ('undeclared', r'is not a member of|no member named|was not declared|undeclared identifier|has not been declared'),
     ('invalid-operands', r'invalid operands|__make_signed_selector|make_signed'),
@@ -101,6 +113,7 @@ EXPLAINS = {
     'duplicate-parameter-name': {'duplicate-parameter'},
     'missing-include': {'undeclared', 'std-hidden'},
     'duplicate-case': {'duplicate-case'},
+    'duplicate-declaration': {'redefinition'},
     'floating-point-header-member': {'invalid-operands'},
 }
 
@@ -138,11 +151,11 @@ def error_file(log):
 # ------------------------------------------------------------------ model answers
 
 def parse_model(ans):
-    m = re.match(r'accepted=(\w+) problems=(.*)$', ans)
+    m = re.match(r'accepted=(\w+)(?: names=(\S*))? problems=(.*)$', ans)
     if not m:
         return None, None
     probs = []
-    for x in m.group(2).split(';'):
+    for x in m.group(3).split(';'):
         if x:
             f = x.split('|')
             if len(f) == 4:
@@ -167,6 +180,28 @@ def expectation(probs, cxx, std):
 
 # ------------------------------------------------------------------ one schema
 
+def closure_hash(gen, rel, memo):
+    """hash of a generated header and of every generated header it includes (transitively); two header-alone jobs
+    with the same hash hand the same token sequence to the compiler (the runtime header is fixed during a run)"""
+    if rel in memo:
+        return memo[rel] or b'cycle'
+    memo[rel] = None
+    path = os.path.join(gen, rel)
+    with open(path, encoding='utf-8', errors='replace') as f:
+        text = f.read()
+    h = hashlib.sha256()
+    h.update(rel.encode())
+    h.update(b'\0')
+    h.update(text.encode('utf-8', errors='replace'))
+    for inc in re.findall(r'^[ \t]*#[ \t]*include[ \t]*["<]([^">]+)[">]', text, re.M):
+        for cand in (os.path.normpath(os.path.join(os.path.dirname(path), inc)), os.path.normpath(os.path.join(gen, inc))):
+            if cand.startswith(gen + os.sep) and os.path.isfile(cand):
+                h.update(closure_hash(gen, os.path.relpath(cand, gen), memo))
+                break
+    memo[rel] = h.digest()
+    return memo[rel]
+
+
 class Case:
     def __init__(self, idx, stream, sch, workdir, headers=True):
         self.idx = idx
@@ -179,6 +214,7 @@ class Case:
         self.accepted_model = None
         self.problems = None
         self.jobs = []          # (what, source path)
+        self.job_key = {}       # what -> hash of everything the job compiles (header-alone jobs)
         self.results = {}       # (what, cxx, std) -> (rc, log)
 
     def prepare(self, exe):
@@ -193,11 +229,16 @@ class Case:
             return
         ns = G.schema_name(self.s)
         if self.headers:
+            memo = {}
             for h in G.generated_headers(self.gen, ns):
                 p = os.path.join(self.dir, 'alone_%s.cpp' % h.replace('/', '_'))
                 with open(p, 'w') as f:
                     f.write(G.header_alone_tu(h))
                 self.jobs.append(('header-alone:' + h, p))
+                try:
+                    self.job_key['header-alone:' + h] = closure_hash(self.gen, h, memo).hex()
+                except OSError:
+                    pass
         src, self.entities = G.touch_tu(self.s)
         p = os.path.join(self.dir, 'touch_tu.cpp')
         with open(p, 'w', encoding='utf-8') as f:
@@ -234,7 +275,8 @@ class Run:
         self.stats = {'schemas': 0, 'rejected_by_sbeppc': 0, 'sbeppc_crashes': 0, 'accepted': 0, 'compiles': 0,
                       'compile_failures': 0, 'schemas_failing': 0, 'schemas_failing_as_predicted': 0,
                       'schemas_predicted_ok': 0, 'schemas_predicted_ill_formed': 0, 'headers_alone': 0,
-                      'touch_tus': 0, 'entities_touched': 0, 'by_stream': {}}
+                      'touch_tus': 0, 'entities_touched': 0, 'compiles_reused': 0, 'by_stream': {}}
+        self.compiled = {}
         self.feat = {}
         self.error_classes = {}
         self.failure_cases = {}
@@ -300,13 +342,34 @@ class Run:
             self.stats['headers_alone'] += len(c.jobs) - 1
             self.stats['touch_tus'] += 1
             self.stats['entities_touched'] += c.entities
+        # a header whose text and whose generated includes (transitively) are byte-identical to one already
+        # compiled alone under the same configuration is not compiled again
+        todo, followers = [], {}
+        for j in jobs:
+            c, what, src, cxx, std = j
+            k = c.job_key.get(what)
+            key = (k, cxx, std) if k else None
+            if key is not None and key in self.compiled:
+                c.results[(what, cxx, std)] = self.compiled[key]
+                self.stats['compiles_reused'] += 1
+            elif key is not None and key in followers:
+                followers[key].append(j)
+                self.stats['compiles_reused'] += 1
+            else:
+                if key is not None:
+                    followers[key] = []
+                todo.append((j, key))
         with cf.ThreadPoolExecutor(core.NPROC) as ex:
-            for c, what, cxx, std, rc, log in ex.map(compile_job, jobs):
+            for (c, what, cxx, std, rc, log), (_, key) in zip(ex.map(compile_job, [j for j, _ in todo]), todo):
                 c.results[(what, cxx, std)] = (rc, log)
                 self.stats['compiles'] += 1
                 chk.cov['evaluations'] += 1
                 if rc != 0:
                     self.stats['compile_failures'] += 1
+                if key is not None:
+                    self.compiled[key] = (rc, log)
+                    for c2, what2, _, cxx2, std2 in followers.get(key, []):
+                        c2.results[(what2, cxx2, std2)] = (rc, log)
         for c in cases:
             if c.rc == 0 and c.problems is not None and c.accepted_model:
                 self.judge(c)
@@ -397,7 +460,12 @@ class Run:
         return cur, G.to_xml(cur), n
 
 
-def streams(chk):
+def chosen_names(ans):
+    m = re.match(r'accepted=\w+ names=(\S*) problems=', ans)
+    return G.parse_chosen(m.group(1)) if m else []
+
+
+def streams(chk, run):
     """[(stream name, [schema dict], headers alone?, configurations)]"""
     thorough = chk.tier == 'thorough'
     configs = CONFIGS_ALL if thorough else CONFIGS_QUICK
@@ -424,6 +492,18 @@ def streams(chk):
         add(f)
         lst.append(s)
     out.append(('path-clash', lst, True, configs))
+    # (a'') adversarial names: ask the model (which follows the decision sites extracted from names_generator.hpp)
+    # which class names the generator chooses for the base schemas, then add entities named literally like them
+    bases = G.adversarial_bases()
+    answers = run.model_lines(['wellformed ' + G.to_sexp(b) for _, b in bases])
+    with_chosen = [(label, b, chosen_names(a)) for (label, b), a in zip(bases, answers)]
+    if any(not c for _, _, c in with_chosen):
+        chk.report_unproved('model-wellformed', {'answer': [a[:300] for a in answers], 'stream': 'adversarial-names'})
+    lst, f = G.adversarial_schemas(with_chosen, random.Random(seed * 11 + 5), 200 if thorough else 38, thorough)
+    add(f)
+    for _, k in lst:
+        add({k: 1})
+    out.append(('adversarial-names', [b for _, b in bases] + [x for x, _ in lst], True, CONFIGS_QUICK))
     # (a') one identifier of the pool at one position of a schema that has one entity of every kind
     pool = G.TEMPLATE_IDENTS + G.KEYWORD_CASE + G.EXTRA_IDENTS
     pairs = [(i, p) for i in pool for p in G.POSITIONS]
@@ -453,19 +533,24 @@ def streams(chk):
     return out, feat
 
 
+def extract_templates(chk):
+    """the C07 extractor (also run by extract/run_all.py): Extracted/Templates.lean from the tree under test"""
+    import sys
+    sys.path.insert(0, core.VERIF)
+    from extract import gen_templates
+    with core.Lock('lake'):
+        rep = gen_templates.extract(core.REPO, os.path.join(core.LEAN, 'Sbepp', 'Extracted'))
+    if rep.get('failed'):
+        chk.log('gen_templates extraction failures:', json.dumps(rep['failed']))
+        chk.extra['gen_templates_failed'] = rep['failed']
+    chk.extra['gen_templates'] = {k: rep.get(k) for k in ('platform_macros', 'keywords', 'base_members', 'names_generator')}
+    return rep
+
+
 def run(chk):
     chk.extract()
-    # the C07 extractor (also run by extract/run_all.py once it is registered there)
     try:
-        import sys
-        sys.path.insert(0, core.VERIF)
-        from extract import gen_templates
-        with core.Lock('lake'):
-            rep = gen_templates.extract(core.REPO, os.path.join(core.LEAN, 'Sbepp', 'Extracted'))
-        if rep.get('failed'):
-            chk.log('gen_templates extraction failures:', json.dumps(rep['failed']))
-            chk.extra['gen_templates_failed'] = rep['failed']
-        chk.extra['gen_templates'] = {k: rep.get(k) for k in ('platform_macros', 'keywords', 'base_members')}
+        extract_templates(chk)
     except Exception as e:   # noqa: BLE001
         chk.report_unproved('extraction', 'gen_templates: %r' % (e,))
         return
@@ -477,7 +562,7 @@ def run(chk):
     sts = []
     try:
         if run.prepare():
-            sts, feat = streams(chk)
+            sts, feat = streams(chk, run)
             idx = 0
             only = [x for x in os.environ.get('C07_STREAMS', '').split(',') if x]   # debugging aid: subset of streams
             for name, schemas, headers, cfgs in sts:
@@ -534,6 +619,12 @@ def replay(chk, rep):
     cfg = rep.get('config', {})
     if not sch:
         print(json.dumps({k: rep[k] for k in rep if k not in ('schema_xml', 'compiler_output')}, indent=1)[:3000])
+        return 1
+    # the model follows the tables and decision sites extracted from the tree under test
+    try:
+        extract_templates(chk)
+    except Exception as e:   # noqa: BLE001
+        print('gen_templates: %r' % (e,))
         return 1
     r = Run(chk, [(cfg.get('cxx', 'g++'), cfg.get('std', 'c++17'))])
     if not r.prepare():
